@@ -23,14 +23,13 @@ RACEOPTS = "halt_on_error=0 exitcode=0 suppress_equal_stacks=0 suppress_equal_ad
 
 
 def build():
-    os.makedirs(BUILD, exist_ok=True)
-    for race in (False, True):
-        out = os.path.join(BUILD, "w-race.test" if race else "w.test")
-        cmd = ["go1.26.8", "test", "-c", "-tags", "verif", "-o", out] + (["-race"] if race else []) + ["./worker"]
-        p = subprocess.run(cmd, cwd=os.path.join(ROOT, "sim"), env=GOENV, stdout=subprocess.PIPE, stderr=subprocess.STDOUT, text=True)
-        if p.returncode != 0:
-            print(p.stdout)
-            sys.exit(2)
+    """Uses the driver's own build step (instrumented copy of the repository's working tree)."""
+    global BUILD
+    p = subprocess.run([os.path.join(ROOT, "check"), "build"], cwd=ROOT, stdout=subprocess.PIPE, stderr=subprocess.STDOUT, text=True)
+    if p.returncode != 0:
+        print(p.stdout)
+        sys.exit(2)
+    BUILD = os.path.join(ROOT, ".build", "warm")
 
 
 def determinism(argv):
